@@ -125,9 +125,13 @@ class Gen:
     def struct(self, t):
         name = self.ident(t, "S")
         if name in self.defs:
-            return name
-        self.defs[name] = None
+            return getattr(self, "generic_inst", {}).get(name, name)
         tuple_struct = t["n"] == 1
+        generic = t["n"] == 2        # S<T> { f0: T, .. } used as S<type of the first field>
+        if generic:
+            self.defs[name] = None
+            return self.generic_struct(name, t)
+        self.defs[name] = None
         lines, helpers, fdecl, frm, tom = [], [], [], [], []
         for i, (ft, a) in enumerate(zip(t["ts"], t["fa"])):
             attrs, tyx, hs = self.field_decl(name, i, ft, a, not tuple_struct)
@@ -159,6 +163,27 @@ class Gen:
         self.defs[name] = src
         self.order.append(name)
         return name
+
+    def generic_struct(self, name, t):
+        first = self.ty(t["ts"][0])
+        rest = [self.ty(x) for x in t["ts"][1:]]
+        fdecl = ["    pub f0: T,"] + ["    pub f{}: {},".format(i + 1, r) for i, r in enumerate(rest)]
+        reprl = "#[repr(C)]\n" if t["s"] == "C" else ""
+        src = "#[derive(Savefile, Debug)]\n" + reprl + "pub struct {}<T> {{\n{}\n}}\n".format(name, "\n".join(fdecl))
+        n = len(t["ts"])
+        src += ("impl<T: vcommon::Model> vcommon::Model for {n}<T> {{\n"
+                "    fn from_model(v: &vcommon::MV) -> Self {{ {n} {{ {c} }} }}\n"
+                "    fn to_model(&self) -> vcommon::MV {{ vcommon::MV::l(vec![{t}]) }}\n}}\n").format(
+                    n=name, c=", ".join("f{}: vcommon::Model::from_model(&v.vs[{}])".format(i, i) for i in range(n)),
+                    t=", ".join("vcommon::Model::to_model(&self.f{})".format(i) for i in range(n)))
+        if all(defaultable(x) for x in t["ts"]):
+            src += "impl<T: Default> Default for {n}<T> {{ fn default() -> Self {{ {n} {{ {b} }} }} }}\n".format(
+                n=name, b=", ".join("f{}: Default::default()".format(i) for i in range(n)))
+        self.defs[name] = src
+        self.order.append(name)
+        self.generic_inst = getattr(self, "generic_inst", {})
+        self.generic_inst[name] = "{}<{}>".format(name, first)
+        return self.generic_inst[name]
 
     def default_impl_struct(self, name, t, tuple_struct):
         # Default (needed when the struct is the type of an added field): every field from its own Default
@@ -194,19 +219,25 @@ class Gen:
             self.order.append(name)
             return name
         for vi, var in enumerate(t["ts"]):
-            fl, binds, ctor_args, tos = [], [], [], []
+            fl, nfl, binds, ctor_args, tos = [], [], [], [], []
             for i, (ft, a) in enumerate(zip(var["ts"], var["fa"])):
                 attrs, tyx, hs = self.field_decl("{}_{}".format(name, vi), i, ft, a, False)
                 helpers += hs
                 fl.append("{} {}".format(" ".join(attrs), tyx))
+                nfl.append("{} f{}: {}".format(" ".join(attrs), i, tyx))
                 binds.append("x{}".format(i))
                 ctor_args.append("vcommon::Model::from_model(&v.vs[{}])".format(i))
                 tos.append("vcommon::Model::to_model(x{})".format(i))
             vattr = ""
             if var["n"] > 0:
                 vattr = '#[savefile_versions="{}.."] '.format(var["n"])
-            disc = " = {}".format(var["s"]) if var["s"] != "" else ""
-            if var["ts"]:
+            named = var["s"] == "{}"
+            disc = " = {}".format(var["s"]) if var["s"] not in ("", "{}") else ""
+            if var["ts"] and named:
+                vdecl.append("    {}V{} {{ {} }},".format(vattr, vi, ", ".join(nfl)))
+                frm.append("{} => {}::V{} {{ {} }},".format(vi, name, vi, ", ".join("f{}: {}".format(i, c) for i, c in enumerate(ctor_args))))
+                tom.append("{}::V{} {{ {} }} => vcommon::MV::ev({}, vec![{}]),".format(name, vi, ", ".join("f{}: x{}".format(i, i) for i in range(len(binds))), vi, ", ".join(tos)))
+            elif var["ts"]:
                 vdecl.append("    {}V{}({}){},".format(vattr, vi, ", ".join(fl), disc))
                 frm.append("{} => {}::V{}({}),".format(vi, name, vi, ", ".join(ctor_args)))
                 tom.append("{}::V{}({}) => vcommon::MV::ev({}, vec![{}]),".format(name, vi, ", ".join(binds), vi, ", ".join(tos)))
@@ -222,7 +253,11 @@ class Gen:
         first = t["ts"][0]
         if all(defaultable(x) for x in first["ts"]):
             args = ", ".join(default_expr(a) for a in first["fa"])
-            src += "impl Default for {n} {{ fn default() -> Self {{ {n}::V0{a} }} }}\n".format(n=name, a="({})".format(args) if first["ts"] else "")
+            if first["s"] == "{}" and first["ts"]:
+                body = " {{ {} }}".format(", ".join("f{}: {}".format(i, default_expr(a)) for i, a in enumerate(first["fa"])))
+            else:
+                body = "({})".format(args) if first["ts"] else ""
+            src += "impl Default for {n} {{ fn default() -> Self {{ {n}::V0{a} }} }}\n".format(n=name, a=body)
         src += "\n".join(helpers) + "\n"
         self.defs[name] = src
         self.order.append(name)
